@@ -118,9 +118,12 @@ func (c *Conn) ReadLoop() {
 		c.br.Reset(nil)
 		c.config.brPool.Put(c.br)
 		c.br = nil
-		if c.cpsWindow.enabled {
+		// A writer that entered before the connection was closed may still be in flight, using the
+		// compression window under c.mu: recycle the window only if no writer holds the lock.
+		if c.cpsWindow.enabled && c.mu.TryLock() {
 			c.config.cswPool.Put(c.cpsWindow.dict)
 			c.cpsWindow.dict = nil
+			c.mu.Unlock()
 		}
 		if c.dpsWindow.enabled {
 			c.config.dswPool.Put(c.dpsWindow.dict)
